@@ -131,6 +131,17 @@ def mk_event(tname, v, extra=None):
     return cls(**pay)
 
 
+def _step_point(step, how):
+    """observation point INSIDE a tick's processing or between ticks: a step body starting / ending (incl. being cancelled while the
+    control loop shuts the workers down) is a moment at which an outside observer can look at the run"""
+    from vf import engine_run
+
+    tr = engine_run._CUR.get("trace")
+    hook = tr.extra.get("at_step_point") if tr is not None else None
+    if hook is not None:
+        hook(tr, step, how)
+
+
 async def _interp(ctx, ev, sp, prog):
     from workflows.runtime.types.results import WaitingForEvent
 
@@ -153,6 +164,7 @@ async def _interp(ctx, ev, sp, prog):
                          "input_uid": ev.input_event.get("uid", None), "input_type": type(ev.input_event).__name__}
     how = "return"
     out = None
+    _step_point(step, "enter")
     try:
         out = await _run_acts(ctx, ev, sp, prog, att, v, uid, bid)
         return out
@@ -184,6 +196,7 @@ async def _interp(ctx, ev, sp, prog):
         r.add("exit", step=step, uid=uid, v=v, att=att, bid=bid, how=how,
               out_uid=(out.get("uid", None) if isinstance(out, Event) else None),
               out_type=(type(out).__name__ if out is not None else None))
+        _step_point(step, how)
 
 
 _NTH = {}  # step name -> entries so far in this case (reset with the recorder)
